@@ -125,7 +125,7 @@ struct Init {
         {   // C14 mode state machine and error precedence
             Profile p; p.id = "C14"; p.level = "exploration"; p.exhaustive = false;
             p.technique = "deterministic simulation: exhaustive (depth 3) and seeded (depth 12) histories of mode-changing calls (incl. a failing enddef) with probe calls from every API family, against a reference mode automaton";
-            p.rule = "histories over the mode-changing alphabet {enddef, redef, begin_indep, end_indep, close+reopen rw, close+reopen ro, abort+reopen, define two over-sized variables + enddef (must fail with NC_EVARSIZE and stay in define mode; CDF-1/2), ncmpi__enddef} from five starts {created, opened writable, opened read-only, a file without variables opened writable, the same opened read-only}; after every step one probe call from each API family (define, attribute, set_fill, collective and independent get, collective put, multi-variable put (_all) and get (independent), nonblocking post+cancel, wait_all, wait, cancel, sync, sync_numrecs, buffer attach/detach, inquiry) is issued by all ranks; seeds map to all 5 x 9^3 = 3645 histories of depth 3 (enumerated completely every run) and to seeded walks of depth 4..12; oracle: return code == reference automaton (documented precedence EPERM, EINDEFINE, ... for put/get and put_att; either applicable code where no precedence is documented), a rejected call changes no byte of the file (image diff around it), leaves no nonblocking request pending, and later calls still behave as the automaton says; non-trivial = at least one call was rejected and one accepted";
+            p.rule = "histories over the mode-changing alphabet {enddef, redef, begin_indep, end_indep, close+reopen rw, close+reopen ro, abort+reopen, define two over-sized variables + enddef (must fail with NC_EVARSIZE and stay in define mode; CDF-1/2), ncmpi__enddef} from five starts {created, opened writable, opened read-only, a file without variables opened writable, the same opened read-only}; after every step one probe call from each API family (define, attribute, set_fill, collective and independent get, collective put, multi-variable put (_all) and get (independent), copy_att from a second file that stays open read-only in data mode, nonblocking post+cancel, wait_all, wait, cancel, sync, sync_numrecs, buffer attach/detach, inquiry) is issued by all ranks; seeds map to all 5 x 9^3 = 3645 histories of depth 3 (enumerated completely every run) and to seeded walks of depth 4..12; oracle: return code == reference automaton (documented precedence EPERM, EINDEFINE, ... for put/get and put_att; either applicable code where no precedence is documented), a rejected call changes no byte of the file (image diff around it), leaves no nonblocking request pending, and later calls still behave as the automaton says; non-trivial = at least one call was rejected and one accepted";
             p.gen = [](uint64_t seed, bool th) {
                 Program q; q.seed = seed; q.cfg.profile = "C14"; sim::Rng rng(seed * 2654435761ULL + 17);
                 q.cfg.sim.nprocs = 1 + (int)(seed % 3 == 0 ? 0 : 1 + rng.below(2)); q.cfg.sim.node_of.assign(q.cfg.sim.nprocs, 0); q.cfg.sim.deviate = (seed % 2) ? 0.2 : 0; q.cfg.format = (int[]){1, 2, 5}[seed % 3];
@@ -135,19 +135,22 @@ struct Init {
                 auto mk = [&](int kind) { Op o; o.kind = kind; o.file = 0; return o; };
                 // prelude: a file with one fixed and one record variable and a record
                 { Op c = mk(OP_CREATE); c.name = "/sim/m.nc"; c.a[0] = q.cfg.format; emit(c); Op d = mk(OP_DEF_DIM); d.name = "x"; d.a[0] = 3; emit(d); Op t = mk(OP_DEF_DIM); t.name = "t"; t.a[0] = 0; emit(t);
-                  Op v = mk(OP_DEF_VAR); v.name = "v"; v.a[0] = NC_DOUBLE; v.dims = {0}; emit(v); Op w = mk(OP_DEF_VAR); w.name = "r"; w.a[0] = NC_DOUBLE; w.dims = {1, 0}; emit(w); emit(mk(OP_ENDDEF));
+                  Op v = mk(OP_DEF_VAR); v.name = "v"; v.a[0] = NC_DOUBLE; v.dims = {0}; emit(v); Op w = mk(OP_DEF_VAR); w.name = "r"; w.a[0] = NC_DOUBLE; w.dims = {1, 0}; emit(w); { Op ta = mk(OP_PUT_ATT); ta.var = -1; ta.name = "title"; ta.att.type = NC_INT; ta.att.v = {7}; emit(ta); } emit(mk(OP_ENDDEF));
                   Op pu = mk(OP_PUT); pu.var = 1; pu.coll = true; for (int r = 0; r < np; r++) { Access a; a.form = F_VARA; a.start = {0, 0}; a.count = {1, 3}; a.memtype = MT_DOUBLE; a.active = (r == 0); if (!a.active) a.count = {0, 0}, a.active = true; pu.acc.push_back(a); } emit(pu);
                   emit(mk(OP_CLOSE)); }
                 // ... and a file without any variable (dimensions and a global attribute only)
                 { Op c = mk(OP_CREATE); c.name = "/sim/z.nc"; c.a[0] = q.cfg.format; emit(c); Op d = mk(OP_DEF_DIM); d.name = "x"; d.a[0] = 3; emit(d); Op t = mk(OP_DEF_DIM); t.name = "t"; t.a[0] = 0; emit(t);
                   Op a = mk(OP_PUT_ATT); a.var = -1; a.name = "title"; a.att.type = NC_INT; a.att.v = {4, 5}; emit(a); emit(mk(OP_ENDDEF)); emit(mk(OP_CLOSE)); }
+                // ... and the source of the copy_att probes: it stays open read-only, in data mode, in a second slot for the whole history
+                { Op c = mk(OP_CREATE); c.name = "/sim/y.nc"; c.a[0] = q.cfg.format; emit(c); Op a = mk(OP_PUT_ATT); a.var = -1; a.name = "title"; a.att.type = NC_INT; a.att.v = {1, 2, 3}; emit(a); emit(mk(OP_ENDDEF)); emit(mk(OP_CLOSE)); }
+                { Op o = mk(OP_OPEN); o.file = 1; o.name = "/sim/y.nc"; o.a[0] = 0; emit(o); }
                 const int NST = 5, NA = 9; const uint64_t NH = (uint64_t)NST * NA * NA * NA;
                 uint64_t idx = (seed - 1) % (2 * NH); bool exhaustive = idx < NH;
                 int start = exhaustive ? (int)(idx / (NA * NA * NA)) : (int)rng.below(NST);
                 std::vector<int> steps;
                 if (exhaustive) { uint64_t k = idx % (NA * NA * NA); for (int i = 0; i < 3; i++) { steps.push_back((int)(k % NA)); k /= NA; } }
                 else { int n = 4 + (int)rng.below(9); for (int i = 0; i < n; i++) steps.push_back((int)rng.below(NA)); }
-                if (start == 0) { Op c = mk(OP_CREATE); c.name = "/sim/n.nc"; c.a[0] = q.cfg.format; emit(c); Op d = mk(OP_DEF_DIM); d.name = "x"; d.a[0] = 3; emit(d); Op v = mk(OP_DEF_VAR); v.name = "v"; v.a[0] = NC_DOUBLE; v.dims = {0}; emit(v); }
+                if (start == 0) { Op c = mk(OP_CREATE); c.name = "/sim/n.nc"; c.a[0] = q.cfg.format; emit(c); Op d = mk(OP_DEF_DIM); d.name = "x"; d.a[0] = 3; emit(d); Op v = mk(OP_DEF_VAR); v.name = "v"; v.a[0] = NC_DOUBLE; v.dims = {0}; emit(v); Op ta = mk(OP_PUT_ATT); ta.var = -1; ta.name = "title"; ta.att.type = NC_INT; ta.att.v = {7}; emit(ta); }
                 else { Op o = mk(OP_OPEN); o.name = start >= 3 ? "/sim/z.nc" : "/sim/m.nc"; o.a[0] = (start == 1 || start == 3); emit(o); }
                 int pctr = 0;
                 auto probes = [&]() {
@@ -161,6 +164,11 @@ struct Init {
                         if (rejected) { Op c3 = mk(OP_CHECKPOINT); c3.a[0] = 3; emit(c3); }
                         emit(pr);
                         if (rejected) { Op c4 = mk(OP_CHECKPOINT); c4.a[0] = 4; emit(c4); }
+                    }
+                    {   // copy of the larger attribute 'title' of the second file (open read-only, data mode) onto this file's 'title': the DESTINATION's mode and permission decide
+                        Op ca = mk(OP_COPY_ATT); ca.file = 1; ca.var = -1; ca.a[0] = 0; ca.a[1] = -1; ca.a[2] = 0;
+                        Model trial = gm; Op t = ca; trial.cur_ops = nullptr;
+                        if (model_step(trial, t)) { bool rejected = t.exp_rc != NC_NOERR; if (rejected) { Op c3 = mk(OP_CHECKPOINT); c3.a[0] = 3; emit(c3); } emit(ca); if (rejected) { Op c4 = mk(OP_CHECKPOINT); c4.a[0] = 4; emit(c4); } }
                     }
                 };
                 probes();
@@ -179,7 +187,7 @@ struct Init {
                     }
                     probes();
                 }
-                if (!emit(mk(OP_CLOSE))) emit(mk(OP_ABORT)); { Op cp = mk(OP_CHECKPOINT); emit(cp); }
+                if (!emit(mk(OP_CLOSE))) emit(mk(OP_ABORT)); { Op c1 = mk(OP_CLOSE); c1.file = 1; emit(c1); } { Op cp = mk(OP_CHECKPOINT); emit(cp); }
                 gm.cur_ops = nullptr;
                 return q;
             };
